@@ -278,6 +278,9 @@ func (e *Exec) step(fn *ssa.Function, fc *FuncContract, st *State, ins ssa.Instr
 	case *ssa.MakeChan:
 		ref := e.allocRef(st)
 		e.set(st, x, Val{T: x.Type(), S: ref})
+		// the capacity is a property of the channel (chancap(ch) in contracts)
+		e.chanCapFun()
+		e.assume(st, eq(fmt.Sprintf("(chan.cap %s)", ref), e.toIdx(st, e.val(st, x.Size))))
 		return true, nil
 
 	case *ssa.MakeClosure:
@@ -386,6 +389,13 @@ func (e *Exec) ptrCells() map[string]Val {
 		ptrCellStore[e] = m
 	}
 	return m
+}
+
+func (e *Exec) chanCapFun() {
+	if !e.sc.funs["chan.cap"] {
+		e.sc.funs["chan.cap"] = true
+		e.sc.emit(fmt.Sprintf("(declare-fun chan.cap (Int) %s)", e.sc.idx()))
+	}
 }
 
 // toIdx converts an integer value to the index sort.
